@@ -163,7 +163,7 @@ func checkC18(c *km.Ctx) {
 	}
 	nExec := 0
 	for _, fn := range c.P.AllFuncs {
-		if fn.Pkg == nil || fn.Pkg.Pkg.Path() != KMD {
+		if fn.Pkg == nil || !pkgIsKMD(fn.Pkg) {
 			continue
 		}
 		for _, ci := range km.CallsIn(fn) {
@@ -189,7 +189,7 @@ func checkC18(c *km.Ctx) {
 
 	// ---------- R-C18-3
 	for _, fn := range c.P.AllFuncs {
-		if fn.Pkg == nil || fn.Pkg.Pkg.Path() != KMD {
+		if fn.Pkg == nil || !pkgIsKMD(fn.Pkg) {
 			continue
 		}
 		nonHTMLType := false
